@@ -378,8 +378,8 @@ func (p *Persister) flushNow(ctx context.Context, batch map[string]persistData, 
 
 	defer tx.Discard()
 	for id, data := range batch {
-		err := data.storeFunc(ctx)
-		if err != nil {
+		if storeErr := data.storeFunc(ctx); storeErr != nil {
+			err = storeErr
 			p.logger.Err(ctx, err).
 				Str(log.ConnectorIDField, id).
 				Msg("error while saving connector")
